@@ -98,3 +98,10 @@ def _v12(repo, mod):
 def _v13(repo, mod):
     fn = repo.func(DYN, "_GoalsManager.update")
     return insert_before(mod, fn.body[-1], "_n = len(self._current_goals)")
+
+
+@variant("C07", "predicate-lookup-across-code-objects", DYN, "C07.node-key", "node -> predicate map built over all code objects (seed C07-c)")
+def _v14(repo, mod):
+    fn = repo.func(DYN, "_BranchFitnessGraph._build_graph")
+    dc = find_node(fn, lambda n: isinstance(n, ast.DictComp))
+    return replace_node(mod, dc.generators[0].ifs[0], "True")
